@@ -87,3 +87,30 @@ def Resolved(parts, is_concrete, dt, mt, root, return_paths):
     if mt is MT.NONE and is_concrete:
         return items[0]
     return items
+
+
+def CountFalse(flags, k):
+    """How many of the first k flags are false."""
+    if k <= 0:
+        return 0
+    return CountFalse(flags, k - 1) + (0 if flags[k - 1] else 1)
+
+
+spec_rec(CountFalse, flags="list", k="int", returns="int")
+
+
+def PathExists(rule_test):
+    """The rule's path selected something (C05: otherwise the rule is valid and reported as not tested)."""
+    if rule_test.rule.path.is_concrete:
+        return rule_test.sub_data[0] is not None
+    return len(rule_test.sub_data) > 0
+
+
+def FailIdx(flags, k):
+    """The positions, among the first k, whose flag is false, in order."""
+    if k <= 0:
+        return []
+    return FailIdx(flags, k - 1) + ([] if flags[k - 1] else [k - 1])
+
+
+spec_rec(FailIdx, flags="list", k="int", returns="list")
